@@ -82,7 +82,7 @@ theorem lookupStep_addUnit {c : Cfg} {n : Name} (v : Val) {s : Name} (i : Nat)
         intro he
         apply hns (by simp [h2])
         rw [he, List.take_append_drop]
-      simp only [this, if_false, lookupStep_none_left]
+      simp only [this, if_false]
       exact hk h
 
 /-- **a fresh unit changes no meaning**: every name that resolves over `c` (as a unit, a one-letter prefix and a
